@@ -229,6 +229,7 @@ func propC11(c *Check) {
 		c.Pure(c.F(n), nil, mapOK, "a historical view is a function of the loaded membership records and the timestamp")
 		c.NoSharedWrites(c.F(n), "kernel", []string{"logger."}, "a view leaves no trace in node or chain state that a later query could observe")
 	}
+	stateSequencesRule(c)
 	c.Pure(c.F("storage.readCustodianAccount"), []string{"(*github.com/dgraph-io/badger", "(*sync.Map)"}, nil, "custodian lookups depend on stored records and the timestamp (Badger and sync.Map are the boundary)")
 	// the one map range is order-insensitive
 	if f := c.F("(*kernel.Node).nodeSequenceWithoutState"); f != nil {
@@ -482,6 +483,7 @@ func propC29(c *Check) {
 		c.Pure(c.F(n), nil, map[string]bool{"(*kernel.Node).nodeSequenceWithoutState": true}, "election is a function of (operation, time, epoch, membership list)")
 		c.NoSharedWrites(c.F(n), "kernel", []string{"logger."}, "the election memoises nothing: the same (membership, time) gives the same node on every process")
 	}
+	stateSequencesRule(c)
 	if f := c.F("(*kernel.Node).electSnapshotNode"); f != nil {
 		list := Call("(*kernel.Node).NodesListWithoutState", Param("node"), Param("now"), ConstBool(true))
 		sl := func(v ssa.Value) bool {
@@ -602,4 +604,49 @@ func propC29(c *Check) {
 		}
 		c.Require(bad == "", "finite-eval", shortName(f)+"|complement of both windows", "for every hour 0..23 the pledge window is exactly the complement of the mint and accept windows", "differs at "+bad)
 	}
+}
+
+// stateSequencesRule: every entry of the time-indexed membership table is computed from the
+// records alone: for each record i the stored list is nodeSequenceWithoutState(record.Timestamp+1,
+// acceptedOnly) — never a list carried over from a neighbouring entry.
+func stateSequencesRule(c *Check) {
+	f := c.F("(*kernel.Node).buildNodeStateSequences")
+	if f == nil {
+		return
+	}
+	all := Param("allNodesSortedWithState")
+	lp := c.RangeLoop(f, "records", all)
+	seqCall := Call("(*kernel.Node).nodeSequenceWithoutState", Param("node"),
+		Bin(token.ADD, Path(all, "[].Timestamp"), ConstInt(1)), Param("acceptedOnly"))
+	c.LoopEffect(f, lp, func(ins ssa.Instruction) bool {
+		st, ok := ins.(*ssa.Store)
+		if !ok {
+			return false
+		}
+		// nodeStateSequences[i] = <literal whose NodesWithoutState is the computed list>
+		ia, ok := st.Addr.(*ssa.IndexAddr)
+		if !ok {
+			return false
+		}
+		if _, isMk := ia.X.(*ssa.MakeSlice); !isMk {
+			return false
+		}
+		lit, ok := st.Val.(*ssa.Alloc)
+		if !ok {
+			return false
+		}
+		good := false
+		for _, ref := range *lit.Referrers() {
+			fa, ok := ref.(*ssa.FieldAddr)
+			if !ok || fieldNameOf(fa.X.Type(), fa.Field) != "NodesWithoutState" {
+				continue
+			}
+			for _, r2 := range *fa.Referrers() {
+				if s2, ok := r2.(*ssa.Store); ok && s2.Addr == fa {
+					good = seqCall(s2.Val)
+				}
+			}
+		}
+		return good
+	}, "sequences[i] = {Timestamp, nodeSequenceWithoutState(Timestamp+1, acceptedOnly)}", "each table entry is recomputed from the records up to its own timestamp")
 }
